@@ -38,15 +38,17 @@ pub fn addr_hex(a: &crate::types::Address) -> String {
 
 include!("suite_pure.rs");
 include!("suite_table.rs");
+include!("suite_core.rs");
 
 pub struct State {
     pure_: PureState,
     table: TableState,
+    core: CoreState,
 }
 
 impl State {
     fn new() -> Self {
-        State { pure_: PureState::new(), table: TableState::new() }
+        State { pure_: PureState::new(), table: TableState::new(), core: CoreState::new() }
     }
 
     fn step(&mut self, line: &str) -> String {
@@ -62,6 +64,9 @@ impl State {
             return r;
         }
         if let Some(r) = self.table.step(&toks) {
+            return r;
+        }
+        if let Some(r) = self.core.step(&toks) {
             return r;
         }
         "bad-op".to_string()
